@@ -104,6 +104,10 @@ const("PERIODIC_CHECK_TIMEOUT", "src/action/bootstrap.rs", duration=True)
 const("GOOD_NODE_THRESHOLD", "src/action/bootstrap.rs")
 const("PINGS_PER_BUCKET", "src/action/bootstrap.rs")
 const("MAX_INITIAL_RESPONSES", "src/action/bootstrap.rs")
+const("BOOTSTRAP_RETRY_BASE", "src/action/bootstrap.rs", rust_name="BASE")
+const("BOOTSTRAP_RETRY_MAX_EXP", "src/action/bootstrap.rs", pattern=r'BASE\.pow\(\(bootstrap_attempt \+ 1\)\.min\((\d+)\) as u32\)')
+const("NAT_FRIENDLY_SEND", "src/action/bootstrap.rs", pattern=r'fn nat_friendly_send_duration\(\) -> Duration \{.*?(Duration::from_millis\([^)]*\))\s*\}', duration=True)
+const("BOOTSTRAP_THROTTLE_AFTER", "src/action/bootstrap.rs", pattern=r'if count > (PINGS_PER_BUCKET) \{')
 # --- socket.rs
 const("RECV_BUFFER_LEN", "src/socket.rs", pattern=r'let mut buffer = vec!\[0u8;\s*(\d+)\];')
 # --- handler.rs
